@@ -415,7 +415,7 @@ def signature(pid, clause, rec, case):
         for t in _all_types(rec):
             _collect_names(t, names)
         dup_names = any(len(v) > 1 for v in names.values())
-        if "monkeytype" in rec["unres_sig"] or "monkeytype" in rec["unres_td"]:
+        if {"monkeytype", "DUMMY_NAME"} & (set(rec["unres_sig"]) | set(rec["unres_td"])):
             cause = "typeddict_not_replaced_below_a_generic_the_rewriter_does_not_visit"
         elif rec["unres_td"]:
             cause = "typeddict_field_annotation_keeps_module_prefix"
@@ -477,7 +477,7 @@ def _collect_mods(t, acc):
 def main(pid, tier, seed, replay=None):
     core.use_repo()
     envgen.load_fixture_classes()
-    for m in ("zutil", "zpkg.zutil", "zfoo", "barzfoo", "ztarget"):
+    for m in ("zutil", "zpkg.zutil", "zfoo", "barzfoo", "zfoo_v2", "ztarget"):
         mod = importlib.import_module(m)
         for v in vars(mod).values():
             if isinstance(v, type):
